@@ -707,6 +707,46 @@ def wrapper_fns(name):
     return [w, byf, chk_f, feats]
 
 
+PROC_H = 'specs/C08/process.h'
+EBASE_TU = 'src/generator/elemwise_base.cpp'
+PROC_KINDS = ('sclass', 'mclass', 'scalar', 'struct')
+
+
+def process_fns(kind):
+    """<kind>_identity_t::process / feature (elemwise_identity.{h,cpp}) + base_elemwise_generator_t::mapped_* (all extracted)"""
+    types = [(r'^nano::datasource_t$', 'struct nv_dsrc'), (r'^nano::feature_t$', 'struct nv_feature'),
+             (r'^nano::tensor3d_dims_t$|^std::array<long, 3>$|tensor_dims_t<3', 'struct nv_dims3'),
+             (r'^std::tuple<\(lambda at .*elemwise_identity\.h:\d+:\d+\), long>$|^tuple<typename __decay_and_strip< ?(const )?\(lambda at .*elemwise_identity\.h:\d+:\d+\) ?&?>::__type, typename __decay_and_strip< ?(const )?long ?&?>::__type>$', 'struct nv_procret'),
+             (r'^\(lambda at .*elemwise_identity\.h:\d+:\d+\)$', 'struct nv_op')]
+    t2 = (r'^operator\(\)\|typename tbase::tconstref \(const nano::tensor_size_t, const int\) const\|.*tensor_vector_storage_t, long, 2>', '(*nv_t2i_at({&0}, {1}, {2}))')
+    common = dict(self_struct='struct nv_egen', types=types, uf_float=False,
+                  calls=[t2, (r'^make_dims\|', 'nv_make_dims3({0}, {1}, {2})'),
+                         (r'^size\|nano::tensor_size_t \(const tensor_dims_t<3', 'nv_dims3_size({0})'),
+                         (r'^max\|const long &\(const long &, const long &\)', 'nv_max_i64({0}, {1})'), (r'^min\|const long &\(const long &, const long &\)', 'nv_min_i64({0}, {1})'),
+                         (r'^make_tuple\|', '(struct nv_procret){ {1} }')],       # the operator (argument 0) is not translated
+                  members=[(r'^mapped_original\|', 'egen_mapped_original'), (r'^mapped_classes\|', 'egen_mapped_classes'),
+                           (r'^mapped_dims\|', 'egen_mapped_dims'),
+                           (r'^datasource\|nano::generator_t', '(*nv_gen_datasource({self}))'),
+                           (r'^feature\|nano::datasource_t', 'nv_dsrc_feature({self}, {0})')])
+    cls = f'nano::{kind}_identity_t::'
+    fns = [Fn(f'{kind}_process', GEN_TU, 'process', flt=cls + 'process', **common),
+           Fn(f'{kind}_feature', GEN_TU, 'feature', flt=cls + 'feature', **common)]
+    for nm in ('mapped_original', 'mapped_classes', 'mapped_dims'):
+        fns.append(Fn('egen_' + nm, EBASE_TU, nm, flt='nano::base_elemwise_generator_t::' + nm, **common))
+    return fns
+
+
+def process_harness(kind):
+    args = '&gen, i'      # (scalar_identity_t::process is a static member: the printer gives it the self parameter all the same)
+    return ('int main(void)\n{\n  NV_PROCESS_SETUP(NV_KIND_' + kind.upper() + ')\n'
+            f'  struct nv_feature f = {kind}_feature(&gen, i);\n'
+            f'  struct nv_procret r = {kind}_process({args});\n'
+            f'  __CPROVER_assert(!nv_thrown, "{kind} identity: feature(i) / process(i) do not throw for a valid generator-local index");\n'
+            f'  __CPROVER_assert(f.m_type == nv_F.m_type && f.m_classes == nv_F.m_classes && f.m_dims.nv_size == nv_F.m_dims.nv_size, "{kind} identity: feature(i) is the descriptor of the original feature the mapping names");\n'
+            f'  __CPROVER_assert(r.colsize == NV_COLUMNS(f), "{kind} identity: process(i) reports exactly the number of flatten columns that dataset_t::update() books for feature(i) (NV_COLUMNS of columns.h)");\n'
+            '  __CPROVER_assert(0, "nv_canary: end of harness reachable");\n  return 0;\n}\n')
+
+
 UPD_H = 'specs/C08/update.h'
 import os as _os
 CBMC_TIMEOUT_DEFAULT = int(_os.environ.get('NV_CBMC_TIMEOUT', '600'))
@@ -802,6 +842,8 @@ def build(tier):
         targets.append(Target('gen_select_' + kind, gen_fns(['select_' + kind, 'should_drop']), GEN_H))
     for kind in ('sclass', 'mclass', 'scalar', 'struct'):
         targets.append(Target('dataset_select_' + kind, select_fns(kind), SEL_H, replace=['dataset_byfeature', 'dataset_check_samples']))
+    for kind in PROC_KINDS:
+        targets.append(Target('process_' + kind, process_fns(kind), PROC_H, enforce_none=True, harness=process_harness(kind), enums=FEATURE_TYPE_ENUM, timeout=60))
     for nm in ('drop', 'shuffle', 'shuffled'):
         targets.append(Target('dataset_' + nm, wrapper_fns(nm), DROP_H, replace=['dataset_byfeature']))
     for nm in ('undrop', 'unshuffle'):
